@@ -62,9 +62,12 @@ func (y CheckWhen) check(s *Selection, m meta.Meta) (bool, error) {
 		if !isCase && !isChoice {
 			break
 		}
-		if hw, ok := p.(meta.HasWhen); ok && hw.When() != nil {
-			if proceed, err := y.eval(above, m, hw.When(), false); !proceed || err != nil {
-				return proceed, err
+		if hw, ok := p.(meta.HasWhen); ok {
+			// the when of an augment that added the case and the one the case states itself
+			for when := hw.When(); when != nil; when = when.Also() {
+				if proceed, err := y.eval(above, m, when, false); !proceed || err != nil {
+					return proceed, err
+				}
 			}
 		}
 	}
